@@ -84,6 +84,39 @@ def checked_by_guard(f, call, p):
             # conjunctions `a && b` lower to nested branches: call on the true edge
             if cs and cs['k'] == 'BinaryOperator' and cs.get('op') == '&&' and k == 0:
                 return True
+    # status kept in a local flag: `ok = a.fetch(x) && ...; if (!ok) break/return;` — a dominating guard on the flag whose
+    # reaching definitions all contain the call in a conjunction means the call succeeded
+    for cond, k, b in f.cfg.controlling_branches(p):
+        t = q.simple_test(f, cond)
+        if t is None:
+            continue
+        decl, tag = t
+        val = tag if k == 0 else ('z' if tag == 'nz' else 'nz')
+        if val != 'nz':
+            continue
+        cp = f.cfg.point_of(cond)
+        defs = rd.local_defs(f, decl)
+        reach = rd.reaching(f, decl, cp) if cp else ()
+        if not reach:
+            continue
+        good = True
+        for i in reach:
+            rhs = defs[i]['rhs']
+            if rhs is None or call['i'] not in set(f.walk(rhs)):
+                good = False
+                break
+            # the call must be a conjunct (only && above it, possibly the flag itself as first conjunct)
+            inside = set(f.walk(rhs))
+            for a in f.ancestors(call['i']):
+                if a not in inside:
+                    break
+                sa = f.stmts[a]
+                if sa['k'] == 'BinaryOperator' and sa.get('op') != '&&':
+                    good = False
+                if sa['k'] == 'UnaryOperator' and sa.get('op') == '!':
+                    good = False
+        if good:
+            return True
     return False
 
 
